@@ -8,7 +8,7 @@ import tempfile
 from vplib import common, oracle, machine, genprog
 
 LEVEL = "proof"
-RULE = ("Coq: Properties/C27.v (stop_at_first_value_partial, stop_never_changes_earlier_steps, paren target lemmas) over "
+RULE = ("Coq: Properties/C27.v (stop_never_changes_earlier_steps, stop_from_initial_state, stop_at_first_value_partial, call_target_stops_at_return, for_target_stops_in_first_iteration, paren target examples) over "
         "MachineStop.v = Machine.step + the stop_at_expr_id checks of `eval`. Dynamic: for generated programs (functions + "
         "one top-level block) and EVERY expression node of the block (spans from the hook op `sexp`): "
         "`garden reftest-eval-up-to` at an offset whose innermost expression is that node, compared with (a) the FIRST "
@@ -18,24 +18,36 @@ META = {
     "technique": "Coq proof on a hand-written model of the stop_at_expr_id logic + differential execution (extracted model vs "
                  "reftest-eval-up-to) + dbg()-instrumented search at every expression position",
     "level_text": ("Coq theorems over MachineStop.v (Machine.step extended with the three stop checks of `eval`, "
-                   "set_observed_expr_value_used, eval_up_to for a position in a top-level expression/block): "
-                   "stop_never_changes_earlier_steps -- a run that stops at step n went through exactly the states of the plain "
-                   "run for n-1 steps and its n-th step is the plain n-th step (for ANY program); "
-                   "stop_at_first_value_partial -- whenever the run, before it stops, begins evaluating an expression e "
-                   "with the target span (e in the literal/variable/operator/let/assign/if/list/tuple/paren/fun-literal "
-                   "fragment, value marked used), the stop happens exactly at the first step at which e's evaluation is "
-                   "complete (continuation back to what it was, exactly one more value on the value stack) and the reported "
-                   "value is that pushed value; target_evaluation_completes_or_fails -- such an evaluation either fails or "
-                   "reaches that stop. A parenthesised target never stops (Example paren_target_runs_to_the_end: the genuine defect), "
-                   "so the repaired eval_up_to looks through parentheses."),
-    "level_note": ("PARTIAL: the completion theorem covers targets whose evaluation uses no loop, call, match, break/continue/"
-                   "return (those are covered by the differential check and the dbg search only), is stated from the step at "
-                   "which the target's evaluation begins (not from the initial state: that no OTHER expression has the same "
-                   "span is assumed, spans are unique in parsed programs), and is about the program with the target marked "
-                   "used. Trusted: Coq kernel; Machine.v/MachineStop.v are hand-written models tied to eval.rs by differential "
-                   "execution only; extraction + OCaml glue; the hook op sexp. reftest-eval-up-to runs the whole file first and "
-                   "re-evaluates the item, so generated programs keep all statements in ONE top-level block (re-evaluation is "
-                   "then idempotent); positions inside function bodies / tests are not exercised."),
+                   "set_observed_expr_value_used, eval_up_to for a position in a top-level expression/block). For ANY program: "
+                   "stop_never_changes_earlier_steps -- a run that stops at step n went through exactly the plain run's states "
+                   "for n-1 steps and its n-th step is the plain n-th step; stop_from_initial_state -- started in init_state, a "
+                   "stopped run EITHER (A) stopped after an expression with the target span whose evaluation BEGAN at a step m "
+                   "that is the first step of the run at which such an evaluation begins (nonfresh_entries_have_begun: the "
+                   "history invariant behind it), and when that expression is in the fragment (literals, variables, fun "
+                   "literals, operators, let, assign, update, parentheses, if / if-else, match, list and tuple literals -- "
+                   "wherever it sits: inside loops, function bodies, closures) the stop is EXACTLY the completion of that first "
+                   "evaluation: continuation back to what it was, value stack = reported value :: old stack, stopped state = "
+                   "plain n-th state, work pending at every step in between (stop_at_first_value_partial, "
+                   "target_evaluation_completes_or_fails); OR (B) stopped at the return of a call whose call expression has "
+                   "the target span (call_target_stops_at_return, no restriction on the callee: loops, recursion, closures): "
+                   "the call was made at a step m, from m+1 to n-1 the callee's frames stay above the untouched caller stack, "
+                   "the reported value is the value the callee's own frame returns and the plain run's n-th step pushes "
+                   "exactly it onto the caller's frame. for_target_stops_in_first_iteration: a `for` target stops with Unit "
+                   "right after entering the first iteration, with the loop variable bound to the first element (what "
+                   "eval_up_to reports). A parenthesised target never stops (Example paren_target_runs_to_the_end: the genuine "
+                   "defect, fixed), so eval_up_to looks through parentheses."),
+    "level_note": ("PARTIAL: in case (A) the exact-completion statement needs the target expression itself to be in the fragment: "
+                   "a target that CONTAINS a loop or a call of a user function, or is a while / return / break / continue, gets "
+                   "only 'its evaluation began at the first such step m and the run is the plain run' from the theorems and is "
+                   "covered beyond that by the differential check and the dbg search; under recursion (B) identifies the "
+                   "completed call (the innermost one that returns first), and `uses` of the callee frame is shown equal to the "
+                   "call's used flag only at creation. The statements are about the program with the target marked used "
+                   "(set_observed_expr_value_used) and assume nothing about span uniqueness (the first expression met with the "
+                   "span is the one spoken about). Trusted: Coq kernel; Machine.v/MachineStop.v are hand-written models tied to "
+                   "eval.rs by differential execution only; extraction + OCaml glue; the hook ops sexp / eval_up_to / run. "
+                   "reftest-eval-up-to runs the whole file first and re-evaluates the item, so generated programs keep all "
+                   "statements in ONE top-level block or test (re-evaluation is then idempotent); positions inside top-level "
+                   "function bodies (prev_call_args) are not exercised."),
     "design_ref": "DESIGN.md section 5 C27, section 6 minimal theorem stop_at_first_value",
 }
 
